@@ -105,6 +105,19 @@ pub fn pool() -> Vec<Lab> {
         Lab::Str("x\u{a0}y".into()),
         Lab::Str("a\tb".into()),
         Lab::Greek('\u{3000}'),
+        // 8 characters of 4 bytes each (32 bytes of UTF-8)
+        Lab::Str("𝜑𝜓𝜔𝛼𝛽𝛾𝛿𝜀".into()),
+        // families of labels that collide under common lossy comparisons: code points equal
+        // modulo 256 ("ах" = U+0430 U+0445 vs "0E"), modulo 65536 (U+10430 vs U+0430), ASCII case
+        Lab::Str("ах".into()),
+        Lab::Str("0E".into()),
+        Lab::Greek('\u{10430}'),
+        Lab::Greek('\u{0430}'),
+        Lab::Greek('0'),
+        Lab::Str("Foo".into()),
+        Lab::Str("FOO".into()),
+        Lab::Alpha(1 << 32),
+        Lab::Alpha((1 << 32) + 1),
     ];
     // enough distinct labels to fill a vertex with N = 16 and go one beyond
     for i in 0..10 {
